@@ -12,7 +12,7 @@ RULE = (
 )
 ASSUMPTIONS = ["the order of edge statements among themselves is not part of the statement and is not checked",
                "known finding dot-edge-to-stopped-child is accepted only when the surplus edges are exactly the predicted ones"]
-GATES = ["mon.C12.export", "C12.edges_checked", "C12.maxlevel0", "C12.stop_and_filter", "C12.colliding_names", "C12.hostile_names", "C12.custom", "C12.to_dotfile", "C12.rendertreegraph", "C12.predicate_change", "C12.value_semantics_nodes", "C12.attribute_reassigned", "C12.tree_changed_between_iterations", "C12.aborted_iteration_then_reuse", "C12.custom_function_returns_none", "C12.falsy_nodes", "C12.other_exporter_numbered_subtree_before"]
+GATES = ["mon.C12.export", "C12.large_tree", "C12.edges_checked", "C12.maxlevel0", "C12.stop_and_filter", "C12.colliding_names", "C12.hostile_names", "C12.custom", "C12.to_dotfile", "C12.rendertreegraph", "C12.predicate_change", "C12.value_semantics_nodes", "C12.attribute_reassigned", "C12.tree_changed_between_iterations", "C12.aborted_iteration_then_reuse", "C12.custom_function_returns_none", "C12.falsy_nodes", "C12.other_exporter_numbered_subtree_before"]
 
 
 def plan(tier, seed, jobs):
@@ -59,7 +59,11 @@ def run(ctx):
     for r in range(nrand):
         rng = ctx.rng("rand", r)
         n = rng.randint(1, 14)
-        par, _ = gen.random_tree(rng, n)
+        big = r % 61 == 3  # beyond size thresholds (id tables, caches, batching): more than 1024 admitted nodes
+        if big:
+            n = rng.choice((1030, 1100, 1300))
+            ctx.count("C12.large_tree")
+        par, _ = gen.random_tree(rng, n, rng.choice(("uniform", "binary", "star")) if big else None)
         ch = gen.children_of(par)
         collide = rng.random() < 0.4
         names = G.hostile_names(rng, n, collide)
